@@ -54,19 +54,22 @@ type vf02Case struct {
 		Excl   string `json:"excl"`
 		Inq    string `json:"inq"`
 	} `json:"cfg"`
-	Rq struct {
-		Action   string    `json:"action"`
-		Path     string    `json:"path"`
-		Protocol string    `json:"protocol"`
-		User     string    `json:"user"`
-		Pass     vf02Tok   `json:"pass"`
-		Token    vf02Tok   `json:"token"`
-		Qtok     []vf02Tok `json:"qtok"`
-		Qjwt     []vf02Tok `json:"qjwt"`
-		Qextra   bool      `json:"qextra"`
-		IP       string    `json:"ip"`
-	} `json:"rq"`
-	Beh string `json:"beh"`
+	Rq    vf02Rq   `json:"rq"`    // single request
+	Steps []vf02Rq `json:"steps"` // or a sequence handled by one manager
+	Beh   string   `json:"beh"`
+}
+
+type vf02Rq struct {
+	Action   string    `json:"action"`
+	Path     string    `json:"path"`
+	Protocol string    `json:"protocol"`
+	User     string    `json:"user"`
+	Pass     vf02Tok   `json:"pass"`
+	Token    vf02Tok   `json:"token"`
+	Qtok     []vf02Tok `json:"qtok"`
+	Qjwt     []vf02Tok `json:"qjwt"`
+	Qextra   bool      `json:"qextra"`
+	IP       string    `json:"ip"`
 }
 
 type vf02Body struct {
@@ -98,6 +101,7 @@ type vf02Env struct {
 	done     chan struct{}
 	mu       sync.Mutex
 	log      []vf02LogEntry
+	mintMu   sync.Mutex
 	minted   map[string]string
 	managers map[string]*Manager
 	now      time.Time
@@ -187,6 +191,12 @@ func vf02NewEnv(t testing.TB) *vf02Env {
 			answer(401, "", "nope")
 		case "s500":
 			answer(500, "", "")
+		case "bycred": // an authority that decides by the credentials the POST carries
+			if entry.Body.Token == "T1" || (entry.Body.User == "alice" && entry.Body.Password == "P1") {
+				answer(200, "", "")
+			} else {
+				answer(401, "", "nope")
+			}
 		case "hang":
 			e.mu.Lock()
 			e.log = append(e.log, entry) // status 0: never answered
@@ -225,6 +235,8 @@ func (e *vf02Env) mint(d vf02Tok) string {
 		return d.S
 	}
 	kb, _ := json.Marshal(d)
+	e.mintMu.Lock()
+	defer e.mintMu.Unlock()
 	if s, ok := e.minted[string(kb)]; ok {
 		return s
 	}
@@ -254,6 +266,8 @@ func (e *vf02Env) mint(d vf02Tok) string {
 		claims["exp"], claims["nbf"], claims["iat"] = now-hour, now-2*hour, now-2*hour
 	case "notyet":
 		claims["exp"], claims["nbf"], claims["iat"] = now+2*hour, now+hour, now-hour
+	case "exponly":
+		claims["exp"] = now + 2*hour
 	case "noexp":
 	default:
 		e.t.Fatalf("vf02: unknown time class %q", d.Time)
@@ -342,53 +356,34 @@ func (e *vf02Env) mint(d vf02Tok) string {
 	return s
 }
 
-func (e *vf02Env) jwtManager(c *vf02Case) *Manager {
-	k := c.Cfg.Iss + "|" + c.Cfg.Aud + "|" + c.Cfg.Excl + "|" + c.Cfg.Inq
+// manager returns THE manager of a configuration: every case (and every step of every sequence)
+// with the same configuration is decided by the same instance, in this one process.
+func (e *vf02Env) manager(c *vf02Case) *Manager {
+	k := c.Cfg.Method + "|" + c.Cfg.Iss + "|" + c.Cfg.Aud + "|" + c.Cfg.Excl + "|" + c.Cfg.Inq + "|" + c.Beh
+	e.mintMu.Lock()
+	defer e.mintMu.Unlock()
 	if m, ok := e.managers[k]; ok {
 		return m
 	}
-	m := &Manager{
-		Method:      conf.AuthMethodJWT,
-		JWTJWKS:     e.jwks.URL + "/jwks.json",
-		JWTClaimKey: vf02ClaimKey,
-		JWTExclude:  e.permList(c.Cfg.Excl),
-		JWTIssuer:   c.Cfg.Iss,
-		JWTAudience: c.Cfg.Aud,
-		ReadTimeout: 20 * time.Second,
-	}
-	switch c.Cfg.Inq {
-	case "true":
-		v := true
-		m.JWTInHTTPQuery = &v
-	case "false":
-		v := false
-		m.JWTInHTTPQuery = &v
-	}
-	e.managers[k] = m
-	return m
-}
-
-func (e *vf02Env) run(id int, raw json.RawMessage, c *vf02Case, out *verifrt.Out) {
-	rend := map[string]any{"user": c.Rq.User, "pass": e.mint(c.Rq.Pass), "token": e.mint(c.Rq.Token), "ip": c.Rq.IP}
-	var parts []string
-	if c.Rq.Qextra {
-		parts = append(parts, "x=1")
-	}
-	qtok, qjwt := []string{}, []string{}
-	for _, d := range c.Rq.Qtok {
-		qtok = append(qtok, e.mint(d))
-		parts = append(parts, "token="+qtok[len(qtok)-1])
-	}
-	for _, d := range c.Rq.Qjwt {
-		qjwt = append(qjwt, e.mint(d))
-		parts = append(parts, "jwt="+qjwt[len(qjwt)-1])
-	}
-	query := strings.Join(parts, "&")
-	rend["qtok"], rend["qjwt"], rend["query"] = qtok, qjwt, query
-
 	var m *Manager
 	if c.Cfg.Method == "jwt" {
-		m = e.jwtManager(c)
+		m = &Manager{
+			Method:      conf.AuthMethodJWT,
+			JWTJWKS:     e.jwks.URL + "/jwks.json",
+			JWTClaimKey: vf02ClaimKey,
+			JWTExclude:  e.permList(c.Cfg.Excl),
+			JWTIssuer:   c.Cfg.Iss,
+			JWTAudience: c.Cfg.Aud,
+			ReadTimeout: 20 * time.Second,
+		}
+		switch c.Cfg.Inq {
+		case "true":
+			v := true
+			m.JWTInHTTPQuery = &v
+		case "false":
+			v := false
+			m.JWTInHTTPQuery = &v
+		}
 	} else {
 		m = &Manager{
 			Method:      conf.AuthMethodHTTP,
@@ -403,23 +398,38 @@ func (e *vf02Env) run(id int, raw json.RawMessage, c *vf02Case, out *verifrt.Out
 			m.HTTPAddress = "http://127.0.0.1:1/b/refused" // nothing listens on the tcpmux port
 		}
 	}
-	e.mu.Lock()
-	e.log = nil
-	e.mu.Unlock()
+	e.managers[k] = m
+	return m
+}
+
+// decide hands one request to the manager; returns the observation and the strings that were used.
+func (e *vf02Env) decide(m *Manager, rq *vf02Rq) (map[string]any, map[string]any) {
+	rend := map[string]any{"user": rq.User, "pass": e.mint(rq.Pass), "token": e.mint(rq.Token), "ip": rq.IP}
+	var parts []string
+	if rq.Qextra {
+		parts = append(parts, "x=1")
+	}
+	qtok, qjwt := []string{}, []string{}
+	for _, d := range rq.Qtok {
+		qtok = append(qtok, e.mint(d))
+		parts = append(parts, "token="+qtok[len(qtok)-1])
+	}
+	for _, d := range rq.Qjwt {
+		qjwt = append(qjwt, e.mint(d))
+		parts = append(parts, "jwt="+qjwt[len(qjwt)-1])
+	}
+	query := strings.Join(parts, "&")
+	rend["qtok"], rend["qjwt"], rend["query"] = qtok, qjwt, query
 
 	user, aerr := m.Authenticate(&Request{
-		Action:               conf.AuthAction(c.Rq.Action),
-		Path:                 c.Rq.Path,
+		Action:               conf.AuthAction(rq.Action),
+		Path:                 rq.Path,
 		Query:                query,
-		Protocol:             Protocol(c.Rq.Protocol),
-		Credentials:          &Credentials{User: c.Rq.User, Pass: rend["pass"].(string), Token: rend["token"].(string)},
-		IP:                   net.ParseIP(c.Rq.IP),
+		Protocol:             Protocol(rq.Protocol),
+		Credentials:          &Credentials{User: rq.User, Pass: rend["pass"].(string), Token: rend["token"].(string)},
+		IP:                   net.ParseIP(rq.IP),
 		EnableAskCredentials: true,
 	})
-
-	e.mu.Lock()
-	log := append([]vf02LogEntry{}, e.log...)
-	e.mu.Unlock()
 	obs := map[string]any{"ok": aerr == nil, "user": user, "ask": aerr != nil && aerr.AskCredentials}
 	if aerr != nil {
 		msg := aerr.Wrapped.Error()
@@ -428,19 +438,44 @@ func (e *vf02Env) run(id int, raw json.RawMessage, c *vf02Case, out *verifrt.Out
 		}
 		obs["err"] = msg
 	}
-	rec := map[string]any{"id": id, "c": raw, "obs": obs, "log": log}
+	return obs, rend
+}
+
+func (e *vf02Env) resetLog() {
+	e.mu.Lock()
+	e.log = nil
+	e.mu.Unlock()
+}
+
+func (e *vf02Env) takeLog() []vf02LogEntry {
+	e.mu.Lock()
+	defer e.mu.Unlock()
+	return append([]vf02LogEntry{}, e.log...)
+}
+
+func (e *vf02Env) stepRec(c *vf02Case, obs, rend map[string]any, log []vf02LogEntry) map[string]any {
+	st := map[string]any{"obs": obs, "log": log}
 	if c.Cfg.Method == "http" {
-		rec["r"] = rend
+		st["r"] = rend
 	}
-	out.Emit(rec)
+	return st
+}
+
+type vf02Seq struct {
+	id  int
+	raw json.RawMessage
+	c   *vf02Case
 }
 
 // spec -> impl -> spec: every case of the bounded model is executed by the real manager.
+// Single cases and the steps of sequence cases of one configuration share one Manager; sequence
+// cases are run serially (twice) and then again concurrently from several goroutines.
 func TestVerif_C02_Replay(t *testing.T) {
 	out := verifrt.NewOut(t)
 	defer out.Close()
 	e := vf02NewEnv(t)
 	defer e.close()
+	var seqs []vf02Seq
 	verifrt.ForEachCase(t, func(raw []byte) {
 		var line struct {
 			ID    int `json:"id"`
@@ -462,8 +497,82 @@ func TestVerif_C02_Replay(t *testing.T) {
 			}
 			return
 		}
-		var c vf02Case
-		verifrt.Decode(t, line.C, &c)
-		e.run(line.ID, line.C, &c, out)
+		c := &vf02Case{}
+		verifrt.Decode(t, line.C, c)
+		m := e.manager(c)
+		if c.Steps == nil {
+			e.resetLog()
+			obs, rend := e.decide(m, &c.Rq)
+			rec := e.stepRec(c, obs, rend, e.takeLog())
+			rec["id"], rec["c"], rec["mode"] = line.ID, line.C, "single"
+			out.Emit(rec)
+			return
+		}
+		seqs = append(seqs, vf02Seq{line.ID, line.C, c})
+		for rep := 0; rep < 2; rep++ {
+			steps := []map[string]any{}
+			for i := range c.Steps {
+				e.resetLog()
+				obs, rend := e.decide(m, &c.Steps[i])
+				steps = append(steps, e.stepRec(c, obs, rend, e.takeLog()))
+			}
+			out.Emit(map[string]any{"id": line.ID, "c": line.C, "mode": "serial", "steps": steps})
+		}
 	})
+
+	// the same sequences again, several at a time from concurrent goroutines on the shared managers.
+	// The auth server's log of a batch is shared: a POST is attributed to a step by what it carries.
+	const batch = 8
+	for lo := 0; lo < len(seqs); lo += batch {
+		hi := lo + batch
+		if hi > len(seqs) {
+			hi = len(seqs)
+		}
+		e.resetLog()
+		type result struct {
+			obs, rend []map[string]any
+		}
+		results := make([][]result, hi-lo)
+		var wg sync.WaitGroup
+		for k := lo; k < hi; k++ {
+			wg.Add(1)
+			go func(k int) {
+				defer wg.Done()
+				sq := seqs[k]
+				m := e.manager(sq.c)
+				for rep := 0; rep < 3; rep++ {
+					var r result
+					for i := range sq.c.Steps {
+						obs, rend := e.decide(m, &sq.c.Steps[i])
+						r.obs = append(r.obs, obs)
+						r.rend = append(r.rend, rend)
+					}
+					results[k-lo] = append(results[k-lo], r)
+				}
+			}(k)
+		}
+		wg.Wait()
+		log := e.takeLog()
+		for k := lo; k < hi; k++ {
+			sq := seqs[k]
+			shared := log
+			if sq.c.Cfg.Method != "http" {
+				shared = []vf02LogEntry{}
+			}
+			for _, r := range results[k-lo] {
+				steps := []map[string]any{}
+				for i := range r.obs {
+					// only entries with this step's user and password can carry the step (cuts the record size)
+					mine := []vf02LogEntry{}
+					for _, le := range shared {
+						if le.Body.User == r.rend[i]["user"] && le.Body.Password == r.rend[i]["pass"] {
+							mine = append(mine, le)
+						}
+					}
+					steps = append(steps, e.stepRec(sq.c, r.obs[i], r.rend[i], mine))
+				}
+				out.Emit(map[string]any{"id": sq.id, "c": sq.raw, "mode": "concurrent", "steps": steps})
+			}
+		}
+	}
 }
